@@ -33,6 +33,9 @@ type c18Case struct {
 	// (empty directory or junk only); "childonly" = the history only created
 	// an empty child collection (a footer without any segment).
 	Shape string `json:",omitempty"`
+	// Revert: after the collection is closed, try SnapshotRevert to the
+	// previous footer on the ReadOnly store.
+	Revert bool `json:",omitempty"`
 }
 
 func dirState(dir string) (map[string]string, error) {
@@ -119,6 +122,7 @@ func genC18(r *eng.Rng, th bool) *c18Case {
 	for i := 0; i < 2; i++ {
 		c.Batches = append(c.Batches, bg.Next())
 	}
+	c.Revert = r.Chance(1, 3)
 	switch r.Intn(8) {
 	case 0:
 		c.Shape = "empty"
@@ -383,6 +387,50 @@ func runC18(cs *c18Case, scratch string, idx int, sr *run.ShardResult) (class, d
 	if err := eng.Safe(func() error { return coll.Close() }); err != nil {
 		return "readonly-close-error", disc, err.Error()
 	}
+	if cs.Revert {
+		// SnapshotRevert needs a footer append: on a ReadOnly store it can
+		// only be refused - without touching the directory and without
+		// changing what the store itself exposes.
+		sr.Units["action:revert-attempt"]++
+		var rerr error
+		ferr := eng.Safe(func() error {
+			cur, err := store.Snapshot()
+			if err != nil || cur == nil {
+				return nil
+			}
+			defer cur.Close()
+			prev, err := store.SnapshotPrevious(cur)
+			if err != nil || prev == nil {
+				return nil
+			}
+			defer prev.Close()
+			sr.Counters["readonly.revert_attempts"]++
+			rerr = store.SnapshotRevert(prev)
+			return nil
+		})
+		if ferr != nil {
+			eng.Safe(func() error { store.Close(); return nil })
+			return "readonly-revert-panic", disc, ferr.Error()
+		}
+		var got *model.Coll
+		ferr = eng.Safe(func() error {
+			s2, err := store.Snapshot()
+			if err != nil || s2 == nil {
+				return fmt.Errorf("store snapshot: %v", err)
+			}
+			defer s2.Close()
+			got, err = eng.ReadTree(s2)
+			return err
+		})
+		if ferr != nil {
+			eng.Safe(func() error { store.Close(); return nil })
+			return "read-error", disc, "after a SnapshotRevert attempt: " + ferr.Error()
+		}
+		if m := eng.DiffTree(got, want, nil); m != nil {
+			eng.Safe(func() error { store.Close(); return nil })
+			return "readonly-content-after-revert-attempt/" + m.Kind, disc, fmt.Sprintf("SnapshotRevert on the ReadOnly store returned %v; the store then exposes: %s", rerr, m.String())
+		}
+	}
 	if err := eng.Safe(func() error { return store.Close() }); err != nil {
 		return "readonly-close-error", disc, err.Error()
 	}
@@ -460,7 +508,7 @@ func init() {
 	ck := &run.Check{
 		Prop:  "C18",
 		Level: "exploration",
-		Rule: "for each case a steered program persists a history into a directory (one case in eight each: nothing ever persisted - an empty directory or junk only; a history that only created an empty child collection, i.e. a footer without segments), which is then decorated with what earlier runs or crashes can leave (an older complete data file of an unrelated store, zero-length / header-only / 1000-byte / footer-less newer data files, an unparsable data-zzz.moss, README, sub-directory, .tmp); the directory is hashed (names, sizes, SHA-256), opened with CollectionOptions.ReadOnly through a recording File substrate (KeepFiles on/off, index settings), read (must equal the persisted reference content), subjected to reads / up to 2 batches (half of the cases with batches that create child collections) / asynchronous notifications / stats / direct Store.Persist calls of the collection's snapshot with every compaction concern, closed, and hashed again after quiescence; any difference, any successful create-open, write (n>0), truncate or writable open in the recorded file operations, or a failing open, is a violation. distinct_nontrivial = distinct (decoration set | KeepFiles) pairs and action kinds.",
+		Rule: "for each case a steered program persists a history into a directory (one case in eight each: nothing ever persisted - an empty directory or junk only; a history that only created an empty child collection, i.e. a footer without segments), which is then decorated with what earlier runs or crashes can leave (an older complete data file of an unrelated store, zero-length / header-only / 1000-byte / footer-less newer data files, an unparsable data-zzz.moss, README, sub-directory, .tmp); the directory is hashed (names, sizes, SHA-256), opened with CollectionOptions.ReadOnly through a recording File substrate (KeepFiles on/off, index settings), read (must equal the persisted reference content), subjected to reads / up to 2 batches (half of the cases with batches that create child collections) / asynchronous notifications / stats / direct Store.Persist calls of the collection's snapshot with every compaction concern, and (a third of the cases, after the collection is closed) a SnapshotRevert attempt to the previous footer, after which the store must still expose the persisted content, closed, and hashed again after quiescence; any difference, any successful create-open, write (n>0), truncate or writable open in the recorded file operations, or a failing open, is a violation. distinct_nontrivial = distinct (decoration set | KeepFiles) pairs and action kinds.",
 		MinUnits:    10,
 		Assumptions: []string{"mutating operations that are attempted but refused by the OS (EBADF on an O_RDONLY descriptor) are counted, not reported: the property is about effects", "no merger runs in ReadOnly mode, so synchronous notifications and more than MaxPreMergerBatches-1 batches (which block by design) are not used"},
 	}
